@@ -3,7 +3,7 @@ import os, re, subprocess, itertools, json, difflib
 from .. import engine, macrocheck as mc
 from ..scn import Rng
 
-CLASSES = ['own', 'ref', 'refref', 'mut', 'imp', 'slice', 'mutdyn', 'impl', 'mutst']
+CLASSES = ['own', 'ref', 'refref', 'mut', 'imp', 'slice', 'mutdyn', 'impl', 'mutst', 'mutgu']
 GENERIC_CLASSES = ['gt', 'gu']     # substituted for some `own` parameters below (they need the trait / method to declare T / U)
 RECVS = ['ref', 'mut', 'own', 'rc', 'arc', 'pin', 'tref', 'tmut']
 SHAPES = os.path.join(engine.HARNESS, 'target', 'debug', 'shapes')
